@@ -408,6 +408,20 @@ def run_asm_case(case, res):
                 if 0 <= a_ <= top_:
                     s.state.memory.write_halfword(a_, _U16(0x5A5A))
             s.load_program(case["text"])
+            if len(case["text"]) % 2:
+                # ... and a third time, after the second image was executed for a while (and scribbled on again)
+                for _ in range(12):
+                    if s.is_done():
+                        break
+                    try:
+                        s.step()
+                    except Exception:
+                        break
+                for a_ in (0, 2, top_):
+                    if 0 <= a_ <= top_:
+                        s.state.memory.write_halfword(a_, _U16(0xA5A5))
+                s.load_program(case["text"])
+                res.count("sources_assembled_three_times_with_execution_in_between")
     except Exception as e:
         res.violation("C19", "load-failed", "well-formed TOY source failed to load (memory size %s%s): %r" % (case.get("size", 4096), ", second assembly on the same simulation" if case.get("again") else "", e), case)
         return
